@@ -19,7 +19,7 @@ var uuidV4 = regexp.MustCompile(`^[0-9a-f]{8}-[0-9a-f]{4}-4[0-9a-f]{3}-[89ab][0-
 // mode ttlcode: the real ttlcode.CodeStore under the virtual clock (verifhook.Now)
 func init() {
 	register("ttlcode", func(args []string) {
-		opTimeout = 2 * time.Second // store operations are instantaneous; one that does not return has dead-locked
+		opTimeout = 5 * time.Second // store operations are instantaneous; one that does not return has dead-locked
 		var cur *ttlcode.CodeStore
 		runLines(func() func(fs []string) string {
 			if cur != nil {
